@@ -183,7 +183,7 @@ def run_getitem(c, shape, exprs):
                 c.fail('C13|getitem|memory sharing|%s' % idx_class(ix), case, {'numpy_shares': bool(np.shares_memory(ref0, plain))})
 
 
-RHS_KINDS = ['utpm', 'utpm_scalar', 'ndarray', 'float', 'np.float64', 'own0view', 'own0rev']
+RHS_KINDS = ['utpm', 'utpm_scalar', 'ndarray', 'float', 'np.float64', 'own0view', 'own0rev', 'own_utpm_shift', 'own_utpm_rev']
 
 
 def run_setitem(c, shape, exprs):
@@ -212,6 +212,17 @@ def run_setitem(c, shape, exprs):
                 elif rk == 'ndarray':
                     R = fill(sshape, 1, 1, off=7)[0, 0] * 2.0
                     rhs = np.array(R, copy=True)
+                elif rk in ('own_utpm_shift', 'own_utpm_rev'):
+                    # the right-hand side is another VIEW OF THE SAME POLYNOMIAL overlapping the assigned region
+                    # (x[1:] = x[:-1], x[...] = x[::-1] ...): NumPy semantics = the values before the assignment
+                    if np.ndim(sel) == 0:
+                        continue
+                    n0 = X.shape[2]
+                    cand = x[::-1] if rk == 'own_utpm_rev' else (x[:-1] if n0 > 1 else None)
+                    if cand is None or cand.data.shape[2:] != sshape:
+                        continue
+                    rhs = cand
+                    R = np.array(cand.data, copy=True)
                 elif rk in ('own0view', 'own0rev'):
                     # the right-hand side is a VIEW of the polynomial's own zeroth coefficient (direction 0) that overlaps
                     # the assigned region: NumPy semantics = the values before the assignment
@@ -235,7 +246,7 @@ def run_setitem(c, shape, exprs):
                     R = rhs = np.float64(-1.25)
                 for d in range(D):
                     for p in range(P):
-                        if rk in ('utpm', 'utpm_scalar'):
+                        if rk in ('utpm', 'utpm_scalar', 'own_utpm_shift', 'own_utpm_rev'):
                             ref[d, p][ix] = R[d, p]
                         else:
                             ref[d, p][ix] = R if d == 0 else 0.0
@@ -431,6 +442,15 @@ def run_ops(c, tier):
             X = X + np.swapaxes(X, -1, -2)
             x = UTPM(X.copy())
             compare_op(c, 'symvec', 'N=%d' % N, x, X, algopy.symvec, lambda a: algopy.utils.symvec(a), cls='F')
+            Xn = fill((N, N), D, P, off=5)          # non-symmetric: 'L' / 'U' read one triangle, row-wise distinct entries
+            for UPLO in 'FLU':
+                def ref_symvec(a, UPLO=UPLO):
+                    if UPLO == 'F':
+                        return np.array([0.5 * (a[r, cc] + a[cc, r]) for r in range(N) for cc in range(r, N)])
+                    if UPLO == 'L':
+                        return np.array([a[cc, r] for r in range(N) for cc in range(r, N)])
+                    return np.array([a[r, cc] for r in range(N) for cc in range(r, N)])
+                compare_op(c, 'symvec', 'N=%d UPLO=%s' % (N, UPLO), UTPM(Xn.copy()), Xn, lambda a, UPLO=UPLO: algopy.symvec(a, UPLO), ref_symvec, cls='UPLO=' + UPLO)
             V = fill((N * (N + 1) // 2,), D, P)
             compare_op(c, 'vecsym', 'N=%d' % N, UTPM(V.copy()), V, algopy.vecsym, lambda a: algopy.utils.vecsym(a), cls='v')
 
